@@ -239,9 +239,20 @@ func shrinkTokens(ts []string, keep func([]string) bool) []string {
 func renameIdents(ts []string, skip int, names []string) []string {
 	ren := map[string]string{}
 	out := make([]string, len(ts))
+	comment := 0 // 1: inside /* */, 2: inside // until newline
 	for i, t := range ts {
 		out[i] = t
-		if i < skip {
+		switch {
+		case comment == 0 && t == "/" && i+1 < len(ts) && ts[i+1] == "*":
+			comment = 1
+		case comment == 0 && t == "/" && i+1 < len(ts) && ts[i+1] == "/":
+			comment = 2
+		case comment == 1 && t == "/" && i > 0 && ts[i-1] == "*":
+			comment = 0
+		case comment == 2 && t == "\n":
+			comment = 0
+		}
+		if i < skip || comment != 0 {
 			continue
 		}
 		if c := t[0]; (c == '_' || c >= 'a' && c <= 'z' || c >= 'A' && c <= 'Z') && !token.IsKeyword(t) && (i == 0 || ts[i-1] != ".") {
@@ -348,9 +359,17 @@ func (r *reducer) canonItems() {
 			o := it.Sep
 			r.try(func() { it.Sep = sep }, func() { it.Sep = o })
 		}
+		if r.rawDone == nil {
+			r.rawDone = map[string]bool{}
+		}
 		if it.K == IGo && !r.rawDone[it.Sig] {
 			// css / script templates and Go blocks are opaque text: shorten token-wise, rename identifiers
 			o := it.Sig
+			// gofmt is not idempotent for a comment in front of a declaration on the same line
+			if c := "var a int\n/**/var b int"; o == c || r.try(func() { it.Sig = c }, func() { it.Sig = o }) {
+				r.rawDone[c] = true
+				continue
+			}
 			ts := shrinkTokens(tokenizeFine(o), func(q []string) bool {
 				it.Sig = strings.Join(q, "")
 				ok := it.Sig != "" && r.test(f.String())
@@ -902,10 +921,10 @@ func (r *reducer) canonShell(n *Node) {
 			r.canonStr(&n.BlockPad, " ")
 			r.canonWS(&n.Lead, false)
 		} else {
-			r.canonGo("call", &n.S, "c()", "c( )", "c(\n)")
+			r.canonGo("call", &n.S, "c()", "c( )", "c(\n)", "/* c */ c()", "\n/* c */c()")
 		}
 	case KLegacyCall:
-		r.canonGo("call", &n.S, "c()", "c( )", "c(\n)")
+		r.canonGo("call", &n.S, "c()", "c( )", "c(\n)", "/* c */ c()", "\n/* c */c()")
 		r.canonPads(&n.PadL, &n.PadR)
 	case KChildren:
 		r.canonPads(&n.PadL, &n.PadR)
@@ -977,7 +996,7 @@ func (r *reducer) canonAttrs(as []*Attr) {
 			r.canonPads(&a.PadL, &a.PadR)
 		case AExpr:
 			r.canonName(&a.Name, "title")
-			r.canonGo("expr", &a.S, "s", "s /* c */", "s // c\n", "/* c */ s")
+			r.canonGo("expr", &a.S, "s", "s /* c */", "s // c\n", "/* c */ s", "s, // c\n")
 			r.canonPads(&a.PadL, &a.PadR)
 		case ASpread:
 			r.canonGo("expr", &a.S, "at")
